@@ -164,6 +164,7 @@ var c15Kinds = []string{"authn-doc", "authn-string", "authn-nosig", "authn-doc-u
 
 func runC15(c *mon.Ctx) {
 	base := BaseTime(c.Seed)
+	var pooled *KeyedSP // one long-lived provider (fixed keys) re-configured for every other case
 	n := c.N(4000, 200000)
 	for k := 0; k < n; k++ {
 		cs := c.Begin("outbound-structure", k)
@@ -176,6 +177,16 @@ func runC15(c *mon.Ctx) {
 		now := base.Add(time.Duration(r.Int64N(int64(400 * 24 * time.Hour)))).Add(time.Duration(r.IntN(1e9))).In(zone)
 		kind := c15Kinds[k%len(c15Kinds)]
 		ksp := NewKeyedSP(base, KeyCfg{EncField: true, SignSetter: r.IntN(2) == 0, ECSetter: r.IntN(2) == 0})
+		if k%2 == 1 {
+			if pooled == nil {
+				pooled = ksp
+			}
+			ksp = pooled
+			sp := ksp.SP
+			sp.ServiceProviderIssuer, sp.IdentityProviderIssuer = SPIss, IdPIss
+			sp.IdentityProviderSSOURL, sp.IdentityProviderSLOURL, sp.AssertionConsumerServiceURL = IdPSSO, IdPSLO, ACS
+			sp.NameIdFormat, sp.ForceAuthn, sp.IsPassive, sp.RequestedAuthnContext = "", false, false, nil
+		}
 		sp := ksp.SP
 		ksp.Clk.Set(now)
 		o := &OutCfg{}
